@@ -334,6 +334,20 @@ class Check:
         if len(self.samples) < cap:
             self.samples.append(s)
 
+    # --- panics of the implementation inside a check that is not about totality
+    GENERIC = ('uniform', 'pair', 'single')
+
+    def panic_record(self, r, msg, rp):
+        """a panic on a generic input family is a violation of whatever property is being checked (nothing can hold of a
+        result that does not exist); on the measure-zero / near-degenerate families it is C05's business (known finding F1)
+        and the record is only counted"""
+        m = re.match(r"^([a-z_]+?)[123][pr]_", r.family)
+        base = m.group(1) if m else r.family
+        if base in self.GENERIC and '_tiny_' not in r.family:
+            self.violation('panic', 'the implementation panicked on a generic input (%s, record %d): %s' % (r.family, r.id, str(msg)[:200]), rp, key=r.family + ' ' + str(msg)[:120])
+        else:
+            self.extra_cov['skipped_panics'] = self.extra_cov.get('skipped_panics', 0) + 1
+
     # --- violations
     def violation(self, kind, what, replay=None, key=None):
         for k in self.known:
